@@ -156,6 +156,27 @@ proof {
 }
 ''', start=i, ind='            ')
 
+# ---- the text entry points: tokenizer (trait-level contract, diffablestr.rs) -> diff -> stored TextDiff ----
+ENTRY = '''
+    // the two texts: what the references resolve to (DiffableStrRef::ds)
+    requires entry_pre(old.ds(), new.ds(), TokKind::KIND),
+    ensures
+        // C02 / C04: the stored ops are a valid, normal-form op list over the two stored token slices
+        res.wf(),
+        // C04 / C06: the stored old (new) token slice PARTITIONS the old (new) text, tokens non-empty, in the shape of this tokenizer
+        tok_post(old.ds(), TokKind::KIND, res.old_toks()@),
+        tok_post(new.ds(), TokKind::KIND, res.new_toks()@),
+        // C14: the configured algorithm is reported; C02: newline-terminated NLDOC unless overridden
+        res.alg() == self.alg(),
+        res.nl() == (match self.nl() { Some(b) => b, None => NLT }),
+'''
+for nm, kind, nlt, doc in (('diff_lines', 'Lines', 'true', 'for line diffs'), ('diff_words', 'Words', 'false', 'only for line diffs: not for word diffs'),
+                           ('diff_chars', 'Chars', 'false', 'only for line diffs: not for char diffs')):
+    i = o.find("pub fn %s<'old, 'new, 'bufs, T: DiffableStrRef + ?Sized>(" % nm)
+    o.before('{', ENTRY.replace('KIND', kind).replace('NLT', nlt).replace('NLDOC', doc), start=i)
+    k = o.find('{', i)
+    o.lines[k + 1:k + 1] = ghost('broadcast use axiom_cow_owned_slice;', '        ')
+
 # ---- TextDiffConfig setters ----
 ic = o.find('impl TextDiffConfig {')
 for nm, post in (('pub fn algorithm(&mut self, alg: Algorithm)', 'res.alg() == alg, res.nl() == old(self).nl(), res.dl_abs() == old(self).dl_abs(), *final(res) == *final(self)'),
